@@ -13,6 +13,7 @@
     css_urls_safe css_scheme_punct_rejected
     attr_value_roundtrip uri_attrs_scheme_serialised default_config_script_free
     html_reparse_safe_partial xhtml_reparse_safe_partial default_config_markup_ok css_pass_order_matters
+    attr_values_decode_stable html_reparse_events_safe_partial redecode_witness
 -/
 import Genshi.Lemmas.SanNest
 import Genshi.Lemmas.SanTree
@@ -21,6 +22,7 @@ import Genshi.Lemmas.SanUri
 import Genshi.Lemmas.SanCssUrl
 import Genshi.Lemmas.SanRoundtrip
 import Genshi.Lemmas.SanReparse
+import Genshi.Lemmas.SanLayer
 import Genshi.Props.C08
 namespace Genshi.Props.C06
 open Genshi Genshi.San Genshi.San.Spec
@@ -466,6 +468,50 @@ theorem xhtml_reparse_safe_partial {cfg : Cfg} (hm : CfgMarkupOk cfg) (hcss : Cs
     rw [this, hp]
     simp [sanitizeFrom]
   · exact assemble_safe (forestPiecesX_safe css_comments_dotall hm hcss p hgood)
+
+/-- **Every emitted attribute value is a fixed point of reference decoding** (all configurations,
+    all streams): the filter decodes until nothing is left and drops a style text that still
+    holds a reference, so a reader that decodes attribute values once more — genshi's own
+    HTMLParser applies `stripentities` to what html.parser has already decoded — ends up with the
+    very value that was checked. -/
+theorem attr_values_decode_stable {cfg : Cfg} {s o : Stream} (h : sanitize cfg s = .ok o)
+    {tag : QName} {attrs : AttrList} (hm : Event.start tag attrs ∈ o)
+    {a : QName × Str} (ha : a ∈ attrs) : stripentities a.2 = .ok a.2 := by
+  obtain ⟨st1, e, _, hem⟩ := sanitizeFrom_mem h _ hm
+  cases hem with
+  | start tag' attrs0 as he hw hsafe has =>
+    obtain ⟨a0, _, hsa⟩ := sanAttrs_mem has a ha
+    exact (sanAttr_some hsa).stable
+  | other hw hns hnc => exact absurd rfl (hns tag attrs)
+
+/-- Why the fixed point matters (regression of finding C06-redecode, fixed): the once-decoded value
+    `&#106;avascript:x` is accepted by `is_safe_uri` (nothing before the `#`), yet one more
+    decoding makes it `javascript:x`.  The repaired filter never emits it: it decodes on and
+    drops the attribute. -/
+theorem redecode_witness :
+    isSafeUri Cfg.default ['&', '#', '1', '0', '6', ';', 'a', 'v', 'a', 's', 'c', 'r', 'i', 'p', 't', ':', 'x'] = true ∧
+    stripentities ['&', '#', '1', '0', '6', ';', 'a', 'v', 'a', 's', 'c', 'r', 'i', 'p', 't', ':', 'x'] =
+      .ok ['j', 'a', 'v', 'a', 's', 'c', 'r', 'i', 'p', 't', ':', 'x'] ∧
+    sanitize Cfg.default [.start aTag [(hrefName, ['&', 'a', 'm', 'p', ';', '#', '1', '0', '6', ';', 'a', 'v', 'a', 's',
+      'c', 'r', 'i', 'p', 't', ':', 'x'])], .end_ aTag] = .ok [.start aTag [], .end_ aTag] := by
+  decide +kernel
+
+/-- The re-parse clause through genshi's own HTML parser layer (model of work package `parse`,
+    `Genshi.Parse.htmlStep`, with `stripentities` for its `strip` parameter, any `str.lower`, any
+    table of void elements): the tokens read back from the HTML serialisation of the sanitized
+    forest, handed to the layer one callback each, make it fail nowhere and build only safe
+    events (`EventSafe`: safe tags, safe attribute names, `ValueSafe` values), the end tags it
+    supplies itself included.  `_partial`: same hypotheses as `html_reparse_safe_partial`. -/
+theorem html_reparse_events_safe_partial {cfg : Cfg} (hm : CfgMarkupOk cfg) (hcss : CssNamesPlain cfg)
+    (cache dropd : Bool) (lower : Str → Str) (void : List Str)
+    (ns : List Node) (hok : okList ns = true) (hpl : plainForest ns = true) :
+    ∃ p toks evs, sanitize cfg (flattenList ns) = .ok (flattenList p) ∧
+      (Genshi.Output.render .html { strip := false, cache := cache, doctype := none, dropXmlDecl := dropd }
+          (flattenList p)).bind (Genshi.Reader.tokens false) = some toks ∧
+      layerRun (layerEnv lower void) [] toks = .ok evs ∧ ∀ e ∈ evs, EventSafe cfg e := by
+  obtain ⟨p, toks, h1, h2, h3⟩ := html_reparse_safe_partial hm hcss cache dropd ns hok hpl
+  obtain ⟨evs, h4, h5⟩ := layerRun_safe hm lower void toks [] (by simp) h3
+  exact ⟨p, toks, evs, h1, h2, h4, h5⟩
 
 /-- The names of the default configuration can be written as markup (re-checked against the
     generated sets): hypothesis `CfgMarkupOk` of the two theorems above. -/
